@@ -87,7 +87,7 @@ def finalize(session, prop, tier, seed, expected, replayers, kf_classes,
             by_backend[b] = by_backend.get(b, 0) + n
         if r.failed:
             refuted.append(r)
-        elif r.unknown:
+        if r.unknown:
             undecided.append((name, 'solver unknown on %d instance(s): %s' % (
                 len(r.unknown), r.unknown[0][1])))
 
@@ -112,12 +112,23 @@ def finalize(session, prop, tier, seed, expected, replayers, kf_classes,
                 continue
             all_inside = True
             for (o, m, log, smt) in r.failed:
-                if not _only_inside_class(o, cls):
+                inside = _only_inside_class(o, cls)
+                if inside is None:
+                    undecided.append((r.name, 'known-finding class check '
+                                              'undecided for %s' % k['id']))
+                    all_inside = None
+                    break
+                if not inside:
                     all_inside = False
                     break
+            if all_inside is None:
+                matched = 'undecided'
+                break
             if all_inside:
                 matched = k
                 break
+        if matched == 'undecided':
+            continue
         if matched is not None:
             kf_matched.append((r.name, matched))
             # the obligation holds outside the finding: count as discharged
@@ -217,19 +228,20 @@ def finalize(session, prop, tier, seed, expected, replayers, kf_classes,
 
 def _only_inside_class(o, cls):
     """is the refutation confined to the witness class?  i.e. pc and not goal
-    and not class is unsat."""
+    and not class is unsat.  Returns True / False / None (undecided)."""
+    from . import solver as solver_mod
     terms = o.info.get('terms') or {}
     try:
         f = cls(terms)
     except KeyError:
         return False
-    s = z3.Solver()
-    s.set('timeout', 20000)
-    for a in o.pc:
-        s.add(a)
-    s.add(z3.Not(o.goal))
-    s.add(z3.Not(f))
-    return s.check() == z3.unsat
+    smt = solver_mod.to_smt2(list(o.pc) + [z3.Not(f)], o.goal, 'valid')
+    _i, v, _m, _b, _t, _log = solver_mod.solve_one((0, smt, False))
+    if v == 'unsat':
+        return True
+    if v == 'sat':
+        return False
+    return None
 
 
 def write_replay(S, prop, r, replayers):
